@@ -18,7 +18,9 @@ import tlc
 CH = {'a': 'a', 'amp': '&', 'eq': '=', 'quot': '"', 'apos': "'", 'lt': '<', 'gt': '>', 'pct': '%', 'plus': '+', 'space': ' ',
       'nl': '\n', 'semi': ';', 'hash': '#', 'qm': '?', 'eacute': u'é', 'emoji': u'\U0001F600',
       # look-alikes of the escapes the bindings themselves use
-      'entamp': '&amp;', 'entlegacy': '&copy=1', 'entnum': '&#38;', 'pctseq': '%26', 'pctbad': '%zz'}
+      'entamp': '&amp;', 'entlegacy': '&copy=1', 'entnum': '&#38;', 'pctseq': '%26', 'pctbad': '%zz',
+      # look-alikes of the placeholders of the auto-submitting form's own template (filled in one pass: data stays data)
+      'tplaction': '{action}', 'tplrelay': '{relay_state_input}', 'tplmsg': '{saml_response_input}', 'tplempty': '{}', 'brace': '{'}
 B = {'redirect': env.BINDING_REDIRECT, 'post': env.BINDING_POST, 'soap': env.BINDING_SOAP,
      'artifact': 'urn:oasis:names:tc:SAML:2.0:bindings:HTTP-Artifact', 'paos': 'urn:oasis:names:tc:SAML:2.0:bindings:PAOS'}
 ARTIFACT = 'AAQAAMFbLinlXaCM+FIxiDwGOLAy2T71gbpO7ZhNzAgEANlB90ECfpNEVLg/=='
